@@ -56,6 +56,10 @@ def check(run):
         raise AnalysisError('only %d get_* statistics found (11 on the pinned tree)' % len(gm))
     run.attempt(shared, run, p, gm)
     run.attempt(loop, run, p)
+    from .common import shared_rule
+    from .c02 import verdicts as _verdicts, kinds_and_methods as _km2
+    shared_rule(run, _verdicts, (run, p, _km2(p)), 'C02-VERDICT', 'C01-VERDICT', ' (what discovery writes down is the statistic itself: it is satisfied only if the verifier, given the same '
+                'statistic - for dates in the form the backend returns it - finds the bound met)')
     try:
         close(run, p, km, gm)
     except AnalysisError as e:
